@@ -350,6 +350,20 @@ pub fn gen(out: &mut crate::gen::Out, rng: &mut Rng, thorough: bool) {
             }
         }
     }
+    // print-sized pictures, asked for in pixels as a program would (A4 at 300 dpi is 2480 px wide): thousands of pixels,
+    // not a multiple of anything
+    {
+        let sizes: &[u32] = if thorough { &[1024, 1500, 2048, 2049, 2480, 2560, 3000, 3508, 4096, 4099, 4961] } else { &[2048, 2480, 3000, 4099] };
+        for (k, &px) in sizes.iter().enumerate() {
+            let v = k % 3;
+            let margin = *rng.pick(&[0usize, 2, 4]);
+            let (inp, o) = crate::gen::small_symbol(rng, &caps, v);
+            let (fg, bg) = palettes[k % 4];
+            let ops = vec![Op::Margin(margin), Op::Shape(k % 6), Op::ModuleColor(ColorArg::Rgba(fg)), Op::BackgroundColor(ColorArg::Rgba(bg))];
+            let (fw, fh) = if k % 2 == 0 { (Some(px), None) } else { (None, Some(px)) };
+            out.job(move || pix_line(&inp, o, &ops, fw, fh));
+        }
+    }
     // module colour given as a CSS string with a fractional alpha, on a transparent background (so that the pixel IS
     // the module colour): what users paste from a stylesheet
     for k in 0..(if thorough { 60 } else { 6 }) {
